@@ -35,7 +35,8 @@ Inductive frame :=
 | FRaise (c : bool)
 | FHandlerDone (c : bool)                    (* rest of the lambda in [self] after (handler ...) *)
 | FCallThunk                                 (* the outer application in ((call/cc ...)) of guard *)
-| FGuardBodyDone (gk : nat).                 (* (guard-k (lambda () res)) *)
+| FGuardBodyDone (gk : nat)                  (* (guard-k (lambda () res)) *)
+| FCReturn.                                  (* bottom of a nested sexp_apply: the value goes back to the C caller *)
 
 Inductive control := CEval (e : exp) | CRet (v : value).
 Inductive status := Running | Done | Uncaught | Stuck (code : nat).
@@ -57,6 +58,12 @@ Fixpoint assoc (k : nat) (l : list (nat * nat)) : option nat :=
   end.
 
 Definition count_of (k : nat) (l : list (nat * nat)) : nat := match assoc k l with Some n => n | None => 0 end.
+
+(** number of nested sexp_apply invocations (C frames) currently on the C stack; kept in the counter table under a
+    reserved key so that the state record stays the same.  Invoking a continuation replaces the Scheme stack but
+    does NOT unwind these C frames (vm.c:1220-1233 runs inside whatever VM loop is current). *)
+Definition CDEPTH : nat := 1000.
+Definition STALE_C_FRAME : nat := 9.        (* status Stuck 9: control returned into a C frame whose VM state is stale *)
 
 Fixpoint run_actions (acts : thunk) (pa : alist) (o : list ev) : alist * list ev :=
   match acts with
@@ -166,11 +173,17 @@ Definition step_eval (s : state) (e : exp) : state :=
       let self := HC (HGuard gk only tag h) orig in
       let old := params s in
       do_wind s1 kg [ASetParams (BHandler (Some self) :: old)] [ASetParams old] [FGuardBodyDone gk] (CEval body)
+  | CCall body =>
+      mkS (CEval body) (FCReturn :: k) (dk s) (params s) (hp s) (conts s) (slots s)
+          ((CDEPTH, S (count_of CDEPTH (counts s))) :: counts s) (out s) (st s)
   end.
 
 Definition step_ret (s : state) (v : value) : state :=
   match kont s with
-  | [] => mkS (ctl s) [] (dk s) (params s) (hp s) (conts s) (slots s) (counts s) (out s) Done
+  | [] => (* the outermost frame returns: the CURRENT VM loop ends; if nested loops are still on the C stack the value
+             goes to a C caller whose Scheme stack was replaced long ago *)
+          mkS (ctl s) [] (dk s) (params s) (hp s) (conts s) (slots s) (counts s) (out s)
+              (if Nat.ltb 0 (count_of CDEPTH (counts s)) then Stuck STALE_C_FRAME else Done)
   | f :: k =>
       match f, v with
       | FSeq b, _ => with_ck s (CEval b) k
@@ -201,6 +214,9 @@ Definition step_ret (s : state) (v : value) : state :=
           else do_throw (with_ck s (ctl s) k) hk (VReraiseThunk payload)
       | FCallThunk, VReraiseThunk payload => do_raise s k true payload
       | FGuardBodyDone gk, VNat n => do_throw (with_ck s (ctl s) k) gk (VResThunk n)
+      | FCReturn, _ =>
+          mkS (CRet v) k (dk s) (params s) (hp s) (conts s) (slots s)
+              ((CDEPTH, pred (count_of CDEPTH (counts s))) :: counts s) (out s) (st s)
       | _, _ => stuck s 3
       end
   end.
@@ -232,5 +248,23 @@ Definition run_spec := run travel_spec.
 
 Definition run_script_impl (fuel : nat) (e : exp) : nat * list ev :=
   let s := run_impl fuel (init e) in (status_code (st s), rev (out s)).
+(** R7RS knows no C stack: a procedure called back from C is just a procedure *)
+Fixpoint erase_ccall (e : exp) : exp :=
+  match e with
+  | Const _ | Mark _ | PRef _ => e
+  | Show a => Show (erase_ccall a)
+  | Seq a b => Seq (erase_ccall a) (erase_ccall b)
+  | Add a b => Add (erase_ccall a) (erase_ccall b)
+  | DynWind i b => DynWind i (erase_ccall b)
+  | CallCC k b => CallCC k (erase_ccall b)
+  | Throw k l a => Throw k l (erase_ccall a)
+  | Parameterize p a b => Parameterize p (erase_ccall a) (erase_ccall b)
+  | WithHandler t h b => WithHandler t (erase_ccall h) (erase_ccall b)
+  | Raise a => Raise (erase_ccall a)
+  | RaiseC a => RaiseC (erase_ccall a)
+  | Guard o t h b => Guard o t (erase_ccall h) (erase_ccall b)
+  | CCall b => erase_ccall b
+  end.
+
 Definition run_script_spec (fuel : nat) (e : exp) : nat * list ev :=
   let s := run_spec fuel (init e) in (status_code (st s), rev (out s)).
